@@ -31,6 +31,7 @@ import (
 	"strings"
 	"sync"
 	"sync/atomic"
+	"syscall"
 	"testing"
 	"time"
 
@@ -1097,6 +1098,7 @@ type isoResult struct {
 	Site     string `json:"site"`
 	Fail     string `json:"fail"`
 	Stopped  bool   `json:"alloc_stopped"`
+	CPUMS    int64  `json:"cpu_ms"` // user + system CPU time of the isolated process during the call
 }
 
 // runIsolated executes the case in a child process of its own. died is true when the child ended
@@ -1110,7 +1112,7 @@ func runIsolated(c c02Case, extraEnv ...string) (res isoResult, died bool, tail 
 	cf := filepath.Join(dir, "case.json")
 	b, _ := json.Marshal(c)
 	_ = os.WriteFile(cf, b, 0o644)
-	cmd := exec.Command(os.Args[0], "-test.run", "^TestC02_isolated$", "-test.count", "1", "-test.timeout", "120s")
+	cmd := exec.Command(os.Args[0], "-test.run", "^TestC02_isolated$", "-test.count", "1", "-test.timeout", "240s")
 	cmd.Env = append(os.Environ(), "C02_ISOLATED="+cf, "VERIF_STATS_OUT=", "VERIF_REPLAY=", "GOMEMLIMIT=8GiB")
 	if rpmShortTimeout.Load() {
 		cmd.Env = append(cmd.Env, "C02_RPM_SHORT=1")
@@ -1125,7 +1127,7 @@ func runIsolated(c c02Case, extraEnv ...string) (res isoResult, died bool, tail 
 	go func() { done <- cmd.Wait() }()
 	select {
 	case <-done:
-	case <-time.After(90 * time.Second):
+	case <-time.After(200 * time.Second):
 		_ = cmd.Process.Kill()
 		<-done
 	}
@@ -1159,11 +1161,17 @@ func confirmIsolated(c c02Case) (bool, string) {
 		return true, "the isolated process died: " + clip(tail)
 	}
 	d := time.Duration(res.DurMS) * time.Millisecond
-	detail := fmt.Sprintf("wall %v, allocated %d MiB", d, res.AllocMiB)
+	cpu := time.Duration(res.CPUMS) * time.Millisecond
+	detail := fmt.Sprintf("wall %v, cpu %v, allocated %d MiB", d, cpu, res.AllocMiB)
 	if res.Stopped {
 		detail += " (stopped while still running)"
 	}
-	return res.TimedOut || d > wallBudget || res.AllocMiB > allocBudget>>20, detail
+	// the time budget is decided so that a busy machine cannot fake an overrun: the call counts
+	// as over the budget when it did not return within four times the budget, when it used more
+	// CPU time than the budget, or when it took longer than the budget while hardly using the
+	// CPU (it was waiting, not starved)
+	timeOver := res.TimedOut || cpu > wallBudget || (d > wallBudget && cpu*10 < d)
+	return timeOver || res.AllocMiB > allocBudget>>20, detail
 }
 
 // TestC02_isolated is the child side of runIsolated; it does nothing unless C02_ISOLATED is set.
@@ -1189,15 +1197,17 @@ func TestC02_isolated(t *testing.T) {
 	if mb := ev.IntEnv("C02_MAXSTACK_MB", 0); mb > 0 {
 		debug.SetMaxStack(mb << 20)
 	}
-	limit := wallBudget + 5*time.Second
+	limit := 4 * wallBudget
 	if os.Getenv("C02_DUMP") != "" {
 		limit = 3 * time.Second
 	}
+	cpu0 := processCPU()
 	r, err := runExtract(e, c.Base, c.Path, data, limit, auxOverride(e, c.Base, c.Path, c.AuxPath, c.AuxMuts))
+	cpuUsed := processCPU() - cpu0
 	if r.TimedOut && os.Getenv("C02_DUMP") != "" {
 		_ = pprof.Lookup("goroutine").WriteTo(os.Stdout, 2)
 	}
-	res := isoResult{DurMS: r.Dur.Milliseconds(), AllocMiB: r.Alloc >> 20, TimedOut: r.TimedOut, Panicked: r.Panicked, Site: r.Site, Stopped: r.AllocStopped}
+	res := isoResult{DurMS: r.Dur.Milliseconds(), AllocMiB: r.Alloc >> 20, TimedOut: r.TimedOut, Panicked: r.Panicked, Site: r.Site, Stopped: r.AllocStopped, CPUMS: cpuUsed.Milliseconds()}
 	if err != nil {
 		res.Fail = err.Error()
 	}
@@ -1250,3 +1260,12 @@ func (w *tailBuffer) Write(p []byte) (int, error) {
 }
 
 func (w *tailBuffer) String() string { w.mu.Lock(); defer w.mu.Unlock(); return string(w.b) }
+
+// processCPU is the user + system CPU time this process has used.
+func processCPU() time.Duration {
+	var ru syscall.Rusage
+	if syscall.Getrusage(syscall.RUSAGE_SELF, &ru) != nil {
+		return 0
+	}
+	return time.Duration(ru.Utime.Nano() + ru.Stime.Nano())
+}
